@@ -1,0 +1,104 @@
+//go:build verif
+
+package mqtt
+
+import "net"
+
+// VerifYield, when set, is invoked at each scheduling point of the Client
+// with the name of the site. The verification harness parks goroutines here.
+var VerifYield func(site string)
+
+func verifYield(site string) {
+	if f := VerifYield; f != nil {
+		f(site)
+	}
+}
+
+// VerifState is a cheap scalar projection of the Client state. It may only be
+// taken while every goroutine of the Client is parked in VerifYield or blocked.
+type VerifState struct {
+	Acked, Received, Completed uint
+	AcceptN, SubmitN           [2]int // -1 when the sequence semaphore is held, -2 when closed
+	QueueLen                   [2]int
+	PendingAck                 []byte
+	HasReadConn, HasBig        bool
+	WriteSem, ConnSem          string // "pending", "down", "conn", "held", "closed", "nil"
+	PingSlot                   int
+	UnorderedN                 uint
+	UnorderedPending           int
+	Online, Offline            bool // signal channel released
+}
+
+// VerifSnapshot reads the projection with non-blocking channel operations.
+func (c *Client) VerifSnapshot() (s VerifState) {
+	s.Acked, s.Received, s.Completed = c.orderedTxs.Acked, c.orderedTxs.Received, c.orderedTxs.Completed
+	for i, out := range []outbound{c.atLeastOnce, c.exactlyOnce} {
+		select {
+		case v, ok := <-out.seqSem:
+			if !ok {
+				s.AcceptN[i], s.SubmitN[i] = -2, -2
+			} else {
+				s.AcceptN[i], s.SubmitN[i] = int(v.acceptN), int(v.submitN)
+				out.seqSem <- v
+			}
+		default:
+			s.AcceptN[i], s.SubmitN[i] = -1, -1
+		}
+		s.QueueLen[i] = len(out.queue)
+	}
+	s.PendingAck = append([]byte(nil), c.pendingAck...)
+	s.HasReadConn = c.readConn != nil
+	s.HasBig = c.bigMessage != nil
+	semState := func(ch chan net.Conn) string {
+		select {
+		case v, ok := <-ch:
+			if !ok {
+				return "closed"
+			}
+			ch <- v
+			switch v {
+			case nil:
+				return "nil"
+			case connPending:
+				return "pending"
+			case connDown:
+				return "down"
+			}
+			return "conn"
+		default:
+			return "held"
+		}
+	}
+	s.WriteSem = semState(c.writeSem)
+	s.ConnSem = semState(c.connSem)
+	s.PingSlot = len(c.pingAck)
+	c.unorderedTxs.Lock()
+	s.UnorderedN = c.unorderedTxs.n
+	s.UnorderedPending = len(c.unorderedTxs.perPacketID)
+	c.unorderedTxs.Unlock()
+	released := func(ch chan chan struct{}) bool {
+		select {
+		case sig := <-ch:
+			ch <- sig
+			select {
+			case <-sig:
+				return true
+			default:
+				return false
+			}
+		default:
+			return false
+		}
+	}
+	s.Online = released(c.onlineSig)
+	s.Offline = released(c.offlineSig)
+	return s
+}
+
+// VerifSetReadBufSize changes the size of read buffers for Clients that
+// connect from now on, and returns the previous size.
+func VerifSetReadBufSize(n int) (old int) {
+	old = readBufSize
+	readBufSize = n
+	return old
+}
